@@ -8,6 +8,7 @@ package main
 import (
 	"bufio"
 	"runtime/pprof"
+	"go/token"
 	"go/types"
 	"encoding/json"
 	"flag"
@@ -109,6 +110,8 @@ func main() {
 		listMain(os.Args[2:])
 	case "scan":
 		scanMain(os.Args[2:])
+	case "blocks":
+		blocksMain(os.Args[2:])
 	default:
 		fatal("unknown command %s", os.Args[1])
 	}
@@ -235,6 +238,7 @@ func runPath(ld *loaded, s *Solver, c *Config, req Request) (res *PathResult) {
 		res.Funcs = append(res.Funcs, f)
 	}
 	sort.Strings(res.Funcs)
+	res.Blocks = e.newBlocks
 	for f := range e.exts {
 		res.Externals = append(res.Externals, f)
 	}
@@ -272,6 +276,7 @@ type Summary struct {
 	Violations   []Violation         `json:"violations"`
 	Reached      map[string]int      `json:"reached"`
 	Funcs        []string            `json:"funcs"`
+	Blocks       []string            `json:"blocks"`
 	Externals    []string            `json:"externals"`
 	Inconclusive []string            `json:"inconclusive"`
 	Errors       []string            `json:"errors"`
@@ -372,4 +377,60 @@ func scanMain(args []string) {
 	b, _ := json.MarshalIndent(sites, "", " ")
 	os.Stdout.Write(b)
 	fmt.Println()
+}
+
+// blocksMain lists every basic block of the library package (harness overlay excluded) as
+// "<function>#<index>\t<file>:<line>": the universe for the coverage figures in the evidence.
+func blocksMain(args []string) {
+	var c Config
+	fs := flag.NewFlagSet("blocks", flag.ExitOnError)
+	addCommon(fs, &c)
+	fs.Parse(args)
+	ld := load(&c)
+	seen := map[*ssa.Function]bool{}
+	var out []string
+	var add func(fn *ssa.Function)
+	add = func(fn *ssa.Function) {
+		if fn == nil || seen[fn] || fn.Blocks == nil {
+			return
+		}
+		seen[fn] = true
+		for _, b := range fn.Blocks {
+			id := blockID(ld.prog, ld.pkg, b)
+			if id == "" {
+				continue
+			}
+			pos := token.NoPos
+			for _, ins := range b.Instrs {
+				if ins.Pos().IsValid() {
+					pos = ins.Pos()
+					break
+				}
+			}
+			if !pos.IsValid() {
+				pos = fn.Pos()
+			}
+			p := ld.prog.Fset.Position(pos)
+			out = append(out, fmt.Sprintf("%s\t%s:%d", id, filepath.Base(p.Filename), p.Line))
+		}
+		for _, an := range fn.AnonFuncs {
+			add(an)
+		}
+	}
+	for _, m := range ld.pkg.Members {
+		switch x := m.(type) {
+		case *ssa.Function:
+			add(x)
+		case *ssa.Type:
+			if named, ok := x.Type().(*types.Named); ok {
+				for i := 0; i < named.NumMethods(); i++ {
+					add(ld.prog.FuncValue(named.Method(i)))
+				}
+			}
+		}
+	}
+	sort.Strings(out)
+	for _, l := range out {
+		fmt.Println(l)
+	}
 }
